@@ -43,6 +43,7 @@ inductive Ev where
   | ack (v : Int)          -- an acknowledgement is observed
   | resp (i : Int) (s : Int)  -- the response to read `i` is observed: the register value it read
   | fin                    -- start of the final collects
+  | respNone (i : Int)     -- (reduce-style registers) the response to read `i` shows an EMPTY register
   deriving Repr
 
 structure TlSt where
@@ -66,12 +67,41 @@ def tlStep (st : TlSt) : Ev → TlSt
     | none => { st with ok := false }
     | some k => { st with ok := st.ok && prefixSumFrom st.writes k s }
   | .fin => st
+  | .respNone _ => { st with ok := false }   -- the summing register is never empty
 
 /-- an observed timeline of the summing register is admissible: every response is the sum of a
 prefix of the writes sent so far that contains every write acknowledged before the read was sent,
 and the acknowledgements are exactly the writes, in order -/
 def simAtomicOk (tl : List Ev) : Bool :=
   let st := tl.foldl tlStep {}
+  st.ok && st.acks == st.writes
+
+/-! ### last-writer-wins register (`last()` / `reduce` inside the atomic region) -/
+
+/-- what a read issued after `k` observed acknowledgements may see when the writes sent so far are
+`ws`: the empty register only if `k = 0`, else the value of the `k`-th write or of a later one -/
+def lwwFrom (ws : List Int) (k : Nat) (v : Option Int) : Bool :=
+  match v with
+  | none => k == 0
+  | some x => (ws.drop (k - 1)).contains x
+
+def tlStepLww (st : TlSt) : Ev → TlSt
+  | .w v => { st with writes := st.writes ++ [v] }
+  | .r i => { st with issued := (i, st.acks.length) :: st.issued }
+  | .ack v => { st with acks := st.acks ++ [v] }
+  | .resp i s =>
+    match lookup st.issued i with
+    | none => { st with ok := false }
+    | some k => { st with ok := st.ok && lwwFrom st.writes k (some s) }
+  | .respNone i =>
+    match lookup st.issued i with
+    | none => { st with ok := false }
+    | some k => { st with ok := st.ok && lwwFrom st.writes k none }
+  | .fin => st
+
+/-- an observed timeline of the last-writer-wins register is admissible -/
+def simLwwOk (tl : List Ev) : Bool :=
+  let st := tl.foldl tlStepLww {}
   st.ok && st.acks == st.writes
 
 end HvHydro2
